@@ -44,9 +44,13 @@ class Obj:
 
 
 def guid_hook(tree, data):
-    """calc_data_id callback as in ug_objects.rst."""
+    """calc_data_id callback as in ug_objects.rst (objects keyed by their guid);
+    plain strings are keyed case-insensitively, so 'a' and 'A' are clones and
+    every string node of a hook tree carries a custom (non-hash) data_id."""
     if hasattr(data, "guid"):
         return data.guid
+    if isinstance(data, str):
+        return "L:" + data.lower()
     return hash(data)
 
 
